@@ -1,4 +1,13 @@
 """The table MANIFEST.json is generated from (lib/mkmanifest.py)."""
-HOOK_COMMITS = []
-CHECKS = {}
+HOOK_COMMITS = ["f3136985"]
+CHECKS = {
+ "C16": dict(level="model_checking",
+   text="TLC exhaustively model-checks BitmapRb.tla (line-by-line transcription of blkmap64_rb.c: extent list + three cursors) against a mathematical set "
+        "(Structural, Refines, ResultsAgree) for every operation with every argument on a small range; the real library (bitarray, rbtree, legacy 32-bit) is then stepped "
+        "through seeded operation histories and every logged step -- result on each back end, rbtree extents and cursors from hook H2, full bit vector of each back end -- "
+        "is validated by TLC as the step the specification takes, with all invariants evaluated after each step.",
+   note="Trusted: TLC, the driver harness/bmdrv.c, hook H2 (read-only dump). rbtree.c balancing is not modelled (only the in-order content). "
+        "Bulk get/set and arguments follow the preconditions in-tree callers satisfy (byte alignment, in-range). Histories are sampled (seeded), the model is exhaustive only at small range.",
+   technique="TLA+ refinement model checking (TLC) + trace validation of real-library histories against the same spec"),
+}
 NA = {}
